@@ -5,7 +5,8 @@ package influxql
 // end-to-end comparison of the grouping with an independent precedence-climbing
 // reference. Bound: every chain of 1..3 binary operators over all 18 operator
 // spellings; operands drawn in rotation from {a, -b, (c), 1} (regex operators get
-// a regex right operand); 18 + 18^2 + 18^3 = 6174 chains x 2 operand rotations.
+// a regex right operand); 18 + 18^2 + 18^3 = 6174 chains x 2 operand rotations;
+// plus nested parenthesised operands ((a o b) o (c o d)) on either side of a third operator.
 // Labelled bounded; never counted as proved.
 
 import (
@@ -69,7 +70,7 @@ func c03ref(atoms []string, ops []c03tok) string {
 }
 
 func TestZZBoundedC03(t *testing.T) {
-	fmt.Println("BOUNDED-BOUND: all chains of 1..3 binary operators over the 18 operator spellings, operands rotated over {a, -b, (c), 1}, regex operators with a regex right operand; print/re-parse grouping and comparison with a precedence-climbing reference")
+	fmt.Println("BOUNDED-BOUND: all chains of 1..3 binary operators over the 18 operator spellings, operands rotated over {a, -b, (c), 1}, regex operators with a regex right operand; print/re-parse grouping and comparison with a precedence-climbing reference; plus 3 x 17^3 texts with nested parenthesised operands on either side (print/re-parse grouping only)")
 	ops := []c03tok{{"*", 5}, {"/", 5}, {"%", 5}, {"&", 5}, {"+", 4}, {"-", 4}, {"|", 4}, {"^", 4},
 		{"=", 3}, {"!=", 3}, {"<>", 3}, {"<", 3}, {"<=", 3}, {">", 3}, {">=", 3}, {"=~", 3}, {"!~", 3}, {"AND", 2}, {"OR", 1}}
 	// "<>" is a second spelling of "!=": 19 entries, 18 distinct operators
@@ -144,6 +145,45 @@ func TestZZBoundedC03(t *testing.T) {
 		}
 	}
 	chain(3, nil)
+	// nested parentheses: an operand that is itself a parenthesised operation over parenthesised
+	// operands, on either side (the printed text starts with "(" and ends with ")" without being
+	// enclosed by one pair)
+	reprint := func(text string) {
+		total++
+		e1, err := ParseExpr(text)
+		if err != nil {
+			return
+		}
+		accepted++
+		p := e1.String()
+		e2, err := ParseExpr(p)
+		if err != nil {
+			fails["printed-text-rejected"]++
+			if first["printed-text-rejected"] == "" {
+				first["printed-text-rejected"] = fmt.Sprintf("%q printed as %q: %v", text, p, err)
+			}
+			return
+		}
+		if s1, s2 := c03shape(e1), c03shape(e2); s2 != s1 {
+			fails["regroup-on-reprint"]++
+			if first["regroup-on-reprint"] == "" {
+				first["regroup-on-reprint"] = fmt.Sprintf("%q groups as %s, printed as %q which groups as %s", text, s1, p, s2)
+			}
+		}
+	}
+	for _, o1 := range ops {
+		for _, o2 := range ops {
+			for _, o3 := range ops {
+				if o1.op == "=~" || o1.op == "!~" || o2.op == "=~" || o2.op == "!~" || o3.op == "=~" || o3.op == "!~" {
+					continue
+				}
+				inner := "((a " + o2.op + " b) " + o3.op + " (c " + o2.op + " d))"
+				reprint("x " + o1.op + " " + inner)
+				reprint(inner + " " + o1.op + " x")
+				reprint("((a) " + o3.op + " (b)) " + o1.op + " ((c) " + o2.op + " (d))")
+			}
+		}
+	}
 	fmt.Printf("BOUNDED-COUNT: generated=%d accepted=%d\n", total, accepted)
 	for c, n := range fails {
 		fmt.Printf("BOUNDED-FAIL: %s count=%d first=%s\n", c, n, first[c])
